@@ -165,6 +165,14 @@ Definition wrapper_opts (g : eapi_row) (h : str) (v : shvars) : option wopts :=
 (* _InstallWrapper._parse_install_options on the words of --insoptions / --diroptions.
    Result: None = the string is empty (Namespace stays empty: no chmod at all);
    Some (Some m) = handled natively, chmod m;  Some None = falls back to install(1) (not modelled) *)
+(* _parse_user / _parse_group for the spellings the generator uses: a decimal id, or "root" *)
+Definition owner_id (v : str) : option N :=
+  if str_eqb v (lit "root") then Some 0%N
+  else match v with
+       | [] => None
+       | _ => if forallb is_digit v then Some (fold_left (fun acc c => (acc * 10 + (c - 48))%N) v 0%N) else None
+       end.
+
 Fixpoint install_mode_words (ws : list str) (mode : option N) (fuel : nat) : option (option N) :=
   match fuel with O => Some None | S f =>
   match ws with
@@ -180,8 +188,60 @@ Fixpoint install_mode_words (ws : list str) (mode : option N) (fuel : nat) : opt
         match octal (skipn 7 w) with Some m => install_mode_words r (Some m) f | None => Some None end
       else if startswith (lit "-m") w then
         match octal (skipn 2 w) with Some m => install_mode_words r (Some m) f | None => Some None end
+      (* -o/--owner and -g/--group: lchown happens BEFORE chmod in _set_attributes, so they do
+         not change the resulting mode (chown would clear set-id bits if it came second) *)
+      else if str_mem w [lit "-o"; lit "--owner"; lit "-g"; lit "--group"] then
+        match r with
+        | v :: r' => match owner_id v with Some _ => install_mode_words r' mode f | None => Some None end
+        | [] => Some None
+        end
+      else if startswith (lit "--owner=") w || startswith (lit "--group=") w then
+        match owner_id (skipn 8 w) with Some _ => install_mode_words r mode f | None => Some None end
+      else if startswith (lit "-o") w || startswith (lit "-g") w then
+        match owner_id (skipn 2 w) with Some _ => install_mode_words r mode f | None => Some None end
       else Some None
   end end.
+
+(* the whole namespace of install_parser: (mode, owner, group, preserve_timestamps); owner/group
+   None = -1 (unchanged) *)
+Record iopts := { io_mode : N; io_owner : option N; io_group : option N; io_preserve : bool }.
+Fixpoint install_full_words (ws : list str) (o : iopts) (fuel : nat) : option iopts :=
+  match fuel with O => None | S f =>
+  match ws with
+  | [] => Some o
+  | w :: r =>
+      let setm m := {| io_mode := m; io_owner := io_owner o; io_group := io_group o; io_preserve := io_preserve o |} in
+      let seto (isg : bool) (i : N) :=
+        if isg then {| io_mode := io_mode o; io_owner := io_owner o; io_group := Some i; io_preserve := io_preserve o |}
+        else {| io_mode := io_mode o; io_owner := Some i; io_group := io_group o; io_preserve := io_preserve o |} in
+      if str_eqb w (lit "-p") || str_eqb w (lit "--preserve-timestamps") then
+        install_full_words r {| io_mode := io_mode o; io_owner := io_owner o; io_group := io_group o; io_preserve := true |} f
+      else if str_eqb w (lit "-m") || str_eqb w (lit "--mode") then
+        match r with
+        | v :: r' => match octal v with Some m => install_full_words r' (setm m) f | None => None end
+        | [] => None
+        end
+      else if startswith (lit "--mode=") w then
+        match octal (skipn 7 w) with Some m => install_full_words r (setm m) f | None => None end
+      else if startswith (lit "-m") w then
+        match octal (skipn 2 w) with Some m => install_full_words r (setm m) f | None => None end
+      else if str_mem w [lit "-o"; lit "--owner"; lit "-g"; lit "--group"] then
+        match r with
+        | v :: r' => match owner_id v with
+                     | Some i => install_full_words r' (seto (str_mem w [lit "-g"; lit "--group"]) i) f
+                     | None => None end
+        | [] => None
+        end
+      else if startswith (lit "--owner=") w || startswith (lit "--group=") w then
+        match owner_id (skipn 8 w) with Some i => install_full_words r (seto (startswith (lit "--group=") w) i) f | None => None end
+      else if startswith (lit "-o") w || startswith (lit "-g") w then
+        match owner_id (skipn 2 w) with Some i => install_full_words r (seto (startswith (lit "-g") w) i) f | None => None end
+      else None
+  end end.
+Definition install_full (s : str) : option iopts :=
+  let ws := words s in
+  install_full_words ws {| io_mode := 493%N; io_owner := None; io_group := None; io_preserve := false |} (S (List.length ws)).
+
 Definition install_mode (s : option str) : option (option N) :=
   match s with
   | None => None
@@ -714,6 +774,16 @@ Definition run_path (i : N * str * str) : val :=
   | 6 => VS (relative_target [SL] a b)
   | _ => VNone
   end%N.
+
+(* stream "insopts": _InstallWrapper._parse_install_options on one option string *)
+Definition run_insopts (s : str) : val :=
+  match install_full s with
+  | None => VErr (E "fallback")
+  | Some o => VL [VZ (Z.of_N (io_mode o));
+                  match io_owner o with Some i => VZ (Z.of_N i) | None => VZ (-1) end;
+                  match io_group o with Some i => VZ (Z.of_N i) | None => VZ (-1) end;
+                  VB (io_preserve o)]
+  end.
 
 (* stream "dosymr": the relative link and its lexical resolution *)
 Definition run_dosymr (i : str * str) : val :=
